@@ -959,7 +959,8 @@ def joined_configs(tier):
     def add(order, touch, seq, flows=None):
         # flows of the streams after the first (which holds every chemical): 'maybe' = Water, and Ethanol present or not (a fork);
         # 'sparse' = Water only
-        flows = flows or ('maybe' if tier != 'quick' or not any(o[0] in 'wL' for o in seq) else 'sparse')
+        # (after a write through a view the later observations are quotients of V's; with the extra fork they cost z3 ~1 min each)
+        flows = flows or ('maybe' if not any(o[0] in 'wLF' for o in seq) else 'sparse')
         out.append({'name': f"join={'+'.join(order)};touch={touch};flows={flows};ops=" + ('>'.join(seq) or '-'), 'order': list(order), 'touch': touch,
                     'ops': list(seq), 'flows': flows})
     if tier == 'quick':
@@ -983,6 +984,10 @@ def joined_configs(tier):
                         add(order, touch, seq)
                 for seq in [('F_vol@last',), ('T@ms', 'F_vol@last'), ('F_vol@last', 'P@last')]:
                     add(order, touch, seq)
+            if len(order) == 2 and 's' not in order:
+                for op in JOIN_OPS:
+                    if op[0] in 'wL':
+                        add(order, 'views-before', (op,), flows='maybe')
     return out
 
 
